@@ -70,4 +70,74 @@ theorem conn_facts :
     F.updateTimePrefersContext = true ∧ F.beginFixesWriteTime = true ∧ F.endOfTxReleasesWriteTime = true := by
   decide
 
+/-! ### a refused transaction leaves nothing behind; no refresh under a fixed time (F57, F58) -/
+
+/-- a transaction the table refuses leaves both attributes and the flag as they were -/
+theorem refused_begin_leaves_conn (c : Conn) (now : Int) : (c.beginOn F now false) = (c, false) := by
+  have h : F.beginAsksTableFirst = true := by decide
+  simp [Conn.beginOn, h]
+
+/-- … so a statement issued later is stamped with its own time, not with the refused one's -/
+theorem after_refused_begin_clock_time (c : Conn) (hw : c.writeTime = none) (now later : Int) :
+    ((c.beginOn F now false).1).stmtTime F later = later := by
+  have h2 : F.updateTimePrefersContext = true := by decide
+  have h3 : F.resetContextAsExpected = true := by decide
+  rw [refused_begin_leaves_conn]
+  simp [Conn.stmtTime, h2, h3, hw]
+
+/-- the defect F57 on the model that pins the time first: the refused transaction's time sticks,
+    and a statement issued at 500 is dated 100 -/
+theorem without_table_first_refused_time_sticks :
+    let F0 : Facts := { F with beginAsksTableFirst := false }
+    (((({} : Conn).beginOn F0 100 false).1).stmtTime F0 500) = 100 := by
+  decide
+
+/-- inside a transaction whose time was fixed at BEGIN a refresh is refused (rows another writer
+    committed after that time would lose the transaction's own later UPDATE silently); with an
+    explicit write_time the caller owns the clock and the refresh is allowed -/
+theorem refresh_refused_under_fixed_time (c : Conn) (hw : c.writeTime = none) (now : Int) :
+    (c.begin F now).refreshAllowed F = false := by
+  have h1 : F.beginFixesWriteTime = true := by decide
+  have h2 : F.refreshRefusedAfterWrite = true := by decide
+  simp [Conn.begin, Conn.refreshAllowed, h1, h2, hw]
+
+theorem refresh_allowed_outside (c : Conn) (h : c.txFixed = false) : c.refreshAllowed F = true := by
+  simp [Conn.refreshAllowed, h]
+
+theorem begin_refresh_facts :
+    F.beginAsksTableFirst = true ∧ F.refreshRefusedAfterWrite = true ∧ F.connFilterResetsEof = true := by decide
+
+/-! ### a write time is stored as 64-bit nanoseconds (F74)
+
+`ConnModule.Update` refuses a `write_time` before `time.Unix(0, MinInt64)` or after
+`time.Unix(0, MaxInt64)` (part of `connUpdateParsesBeforeAssigning`).  `wrap64` is what
+`Time.UnixNano()` does outside that range; times are nanoseconds since 1970. -/
+
+def wrap64 (n : Int) : Int := (n + 2 ^ 63) % 2 ^ 64 - 2 ^ 63
+
+/-- the guard of `ConnModule.Update`, negated: the time is accepted -/
+def timeAccepted (ns : Int) : Bool := decide (-(2 ^ 63) ≤ ns) && decide (ns ≤ 2 ^ 63 - 1)
+
+/-- an accepted write time is stored exactly -/
+theorem accepted_time_stored_exactly (ns : Int) (h : timeAccepted ns = true) : wrap64 ns = ns := by
+  simp only [timeAccepted, Bool.and_eq_true, decide_eq_true_eq] at h
+  unfold wrap64
+  omega
+
+/-- … so accepted write times keep their order in storage: a later one never loses against an
+    earlier one because of the representation -/
+theorem accepted_times_keep_order (a b : Int) (ha : timeAccepted a = true) (hb : timeAccepted b = true)
+    (h : a < b) : wrap64 a < wrap64 b := by
+  rw [accepted_time_stored_exactly a ha, accepted_time_stored_exactly b hb]; exact h
+
+/-- the defect F74, were the guard missing: 9999-12-31 23:59:59 wraps to a time before 2020-09-13
+    (1 600 000 000 s), so the later statement would lose -/
+theorem year_9999_would_wrap_below_2020 :
+    timeAccepted (253402300799 * 10 ^ 9) = false ∧
+    wrap64 (253402300799 * 10 ^ 9) < wrap64 (1600000000 * 10 ^ 9) := by
+  decide
+
+/-- the boundary: the last accepted second is 2262-04-11 23:47:16 -/
+example : timeAccepted (9223372036 * 10 ^ 9) = true ∧ timeAccepted (9223372037 * 10 ^ 9) = false := by decide
+
 end S3db.Props.C15Conn
